@@ -889,7 +889,7 @@ fn main() {
             w.rec.end_case(c, true);
         }
 
-        // ================= D25: ONE leader-signed shred with the other last-slice marker derails the repair for good =================
+        // ================= D26: ONE leader-signed shred with the other last-slice marker derails the repair for good =================
         // (Lean witness `AgModel.Repair.derail_by_last_marker`; `repair_completes` needs `Admissible` for exactly this reason)
         {
             let n = rng.range(2, max_n.max(2)) as usize;
